@@ -73,6 +73,10 @@ struct ModeConn {
     /// the sender's own bookkeeping): window base, and one past the newest packet id in use
     reported_base: Option<u32>,
     next_id: Option<u32>,
+    /// (packet id, fragment id) pairs the receiver has read from its socket at least once
+    rx_got: std::collections::BTreeSet<(u32, u16)>,
+    /// last fragment id per packet id, from the wire
+    frag_last: BTreeMap<u32, u16>,
 }
 
 pub struct ModeOracle {
@@ -140,6 +144,19 @@ impl Oracle for ModeOracle {
                             }
                         }
                     }
+                    T::AckGroupAccepted { base_id, bitfield } => {
+                        // an accepted group is an acknowledgement, processed now, of every frame
+                        // whose bit it sets - whatever the sender then does with it
+                        for i in 0..32u32 {
+                            if bitfield & (1 << i) != 0 {
+                                if let Some(frags) = c.frames.get(&base_id.wrapping_add(i)) {
+                                    for f in frags.iter() {
+                                        c.acked_at.entry(*f).or_insert(*call);
+                                    }
+                                }
+                            }
+                        }
+                    }
                     T::FragmentAcked { sequence_id, fragment_id } => {
                         // the sender stops retransmitting this fragment from now on: that is only
                         // right if an accepted acknowledgement covers a frame which carried it
@@ -158,6 +175,15 @@ impl Oracle for ModeOracle {
             Rec::Consumed { call, ep, src: Some(src), bytes, .. } => {
                 // "the receiver has reported moving past the packet": an ack frame read by the
                 // sender whose packet window base lies beyond the packet, within what was sent
+                if bytes.first() == Some(&FRAME_DATA) && !matches!(cx.plan.endpoints[*src].kind, EndpointKind::Raw) {
+                    // the receiver (ep) has read a data frame of the sender (src)
+                    if let (Some(uv::Frame::DataFrame(f)), Some(c)) = (uv::Frame::read(bytes), self.conns.get_mut(&(*src, *ep))) {
+                        for d in f.datagrams.iter() {
+                            c.rx_got.insert((d.sequence_id, d.fragment_id));
+                        }
+                    }
+                    return None;
+                }
                 if bytes.first() != Some(&FRAME_ACK) || matches!(cx.plan.endpoints[*src].kind, EndpointKind::Raw) {
                     return None;
                 }
@@ -174,12 +200,31 @@ impl Oracle for ModeOracle {
                     return None;
                 }
                 let mut id = base;
+                let mut abandoned = None;
                 while id != b {
                     c.passed_at.entry(id).or_insert(*call);
+                    // a Reliable packet is retransmitted until acknowledged: the receiver cannot
+                    // have moved past one it never read in full (after this report the sender
+                    // gives the packet up)
+                    if let (Some(info), Some(last)) = (c.emitted.get(&id), c.frag_last.get(&id)) {
+                        if info.mode == MODE_RELIABLE && abandoned.is_none() {
+                            if let Some(missing) = (0..=*last).find(|f| !c.rx_got.contains(&(id, *f))) {
+                                abandoned = Some((id, missing, *last));
+                            }
+                        }
+                    }
                     id = (id + 1) & 0xFFFFF;
                     self.passed_packets += 1;
                 }
                 c.reported_base = Some(b);
+                // bounded memory: forget what lies far behind the window
+                if c.rx_got.len() > 200_000 {
+                    c.rx_got.clear();
+                    c.frag_last.clear();
+                }
+                if let Some((id, missing, last)) = abandoned {
+                    return viol(prop, "reliable_packet_passed_unreceived", format!("endpoint {}: its peer reports having moved past Reliable packet id {} although it never read fragment {}/{} of it; the sender stops retransmitting it from here on", ep, id, missing, last), *call);
+                }
             }
             Rec::Wire(w) => {
                 let Some(dst) = w.dst else { return None };
@@ -191,6 +236,7 @@ impl Oracle for ModeOracle {
                 let mut list = Vec::new();
                 for d in f.datagrams.iter() {
                     let key = (d.sequence_id, d.fragment_id);
+                    c.frag_last.insert(d.sequence_id, d.fragment_id_last);
                     list.push(key);
                     self.fragments_seen += 1;
                     let e = c.emissions.entry(key).or_insert((0, w.call));
